@@ -13,6 +13,8 @@ Inductive qty :=
 | QVar                       (* one timestamp / duration variable: the unit's, sample's or packet's own *)
 | QFrame (spf : string)      (* x + i * spf: the position of frame i of a unit stamped x (spf: samples per frame) *)
 | QDiff                      (* x - y: the distance between two timestamps of the same clock *)
+| QAccum                     (* x := start; per frame { convert x; x += length of that frame }: start + the lengths of the
+                                frames before this one (y) = the position of the frame *)
 | QExpr.                     (* another single-assignment expression (offset added to a timestamp); see the row *)
 
 Record call_site := mk_cs {
@@ -27,12 +29,13 @@ Definition cs_key (s : call_site) : string * string * string * string * string :
   (cs_where s, cs_callee s, cs_value s, cs_from s, cs_to s).
 
 (* the number a call of class q converts, from the values of its variables: x, y (QDiff), frame index i and samples per
-   frame spf (QFrame); exact integers *)
+   frame spf (QFrame), y = sum of the lengths of the earlier frames of the unit (QAccum); exact integers *)
 Definition qty_value (q : qty) (x y i spf : Z) : Z :=
   match q with
   | QVar | QExpr => x
   | QFrame _ => (x + i * spf)%Z
   | QDiff => (x - y)%Z
+  | QAccum => (x + y)%Z
   end.
 (* the same as Go computes it (int64 / time.Duration arithmetic) *)
 Definition qty_value_w (q : qty) (x y i spf : Z) : Z :=
@@ -40,17 +43,18 @@ Definition qty_value_w (q : qty) (x y i spf : Z) : Z :=
   | QVar | QExpr => x
   | QFrame _ => wrap64 (x + wrap64 (i * spf))
   | QDiff => wrap64 (x - y)
+  | QAccum => wrap64 (x + y)
   end.
 (* what a call site hands on: helper md applied to the value with destination rate `to` and source rate `from` *)
 Definition site_result (md : Z -> Z -> Z -> Z) (q : qty) (x y i spf to from : Z) : Z :=
   md (qty_value_w q x y i spf) to from.
 
-Definition is_frame (q : qty) : bool := match q with QFrame _ => true | _ => false end.
+Definition is_frame (q : qty) : bool := match q with QFrame _ | QAccum => true | _ => false end.
 
 Definition call_table : list call_site := [
   mk_cs "internal/ntpestimator/estimator.go (*Estimator).Estimate" "multiplyAndDivide" "time.Duration(pts - e.refPTS)" "time.Duration(e.ClockRate)" "time.Second" QDiff;
   mk_cs "internal/playback/muxer_fmp4.go (*muxerFMP4).writeSample" "durationGoToMp4" "partDuration" "time.Second" "w.curTrack.timeScale" QVar;
-  mk_cs "internal/playback/segment_fmp4.go segmentFMP4ReadDurationFromParts" "durationMp4ToGo" "elapsed" "track.TimeScale" "time.Second" QVar;
+  mk_cs "internal/playback/segment_fmp4.go segmentFMP4ReadDurationFromParts" "durationMp4ToGo" "elapsed := int64(tfdt.BaseMediaDecodeTimeV1); elapsed += int64(entry.SampleDuration)" "track.TimeScale" "time.Second" QAccum;
   mk_cs "internal/playback/segment_fmp4.go segmentFMP4MuxParts" "durationGoToMp4" "startDTS" "time.Second" "track.TimeScale" QVar;
   mk_cs "internal/playback/segment_fmp4.go segmentFMP4MuxParts" "durationGoToMp4" "duration" "time.Second" "track.TimeScale" QVar;
   mk_cs "internal/playback/segment_fmp4.go segmentFMP4MuxParts" "durationMp4ToGo" "dts - startDTSMP4" "timeScale" "time.Second" QDiff;
@@ -79,11 +83,11 @@ Definition call_table : list call_site := [
   mk_cs "internal/protocols/rtmp/from_stream.go FromStream" "timestampToDuration" "dts" "origFormat.ClockRate()" "time.Second" QVar;
   mk_cs "internal/protocols/rtmp/from_stream.go FromStream" "timestampToDuration" "u.PTS" "origFormat.ClockRate()" "time.Second" QVar;
   mk_cs "internal/protocols/rtmp/from_stream.go FromStream" "timestampToDuration" "dts" "origFormat.ClockRate()" "time.Second" QVar;
-  mk_cs "internal/protocols/rtmp/from_stream.go FromStream" "timestampToDuration" "pts" "origFormat.ClockRate()" "time.Second" QVar;
-  mk_cs "internal/protocols/rtmp/from_stream.go FromStream" "timestampToDuration" "pts" "origFormat.ClockRate()" "time.Second" QVar;
+  mk_cs "internal/protocols/rtmp/from_stream.go FromStream" "timestampToDuration" "pts := u.PTS; pts += opus.PacketDuration2(pkt)" "origFormat.ClockRate()" "time.Second" QAccum;
+  mk_cs "internal/protocols/rtmp/from_stream.go FromStream" "timestampToDuration" "pts := u.PTS + int64(i)*mpeg4audio.SamplesPerAccessUnit" "origFormat.ClockRate()" "time.Second" (QFrame "mpeg4audio.SamplesPerAccessUnit");
   mk_cs "internal/protocols/rtmp/from_stream.go FromStream" "timestampToDuration" "u.PTS" "origFormat.ClockRate()" "time.Second" QVar;
-  mk_cs "internal/protocols/rtmp/from_stream.go FromStream" "timestampToDuration" "pts" "origFormat.ClockRate()" "time.Second" QVar;
-  mk_cs "internal/protocols/rtmp/from_stream.go FromStream" "timestampToDuration" "pts" "origFormat.ClockRate()" "time.Second" QVar;
+  mk_cs "internal/protocols/rtmp/from_stream.go FromStream" "timestampToDuration" "pts := u.PTS; pts += int64(h.SampleCount()) * int64(origFormat.ClockRate()) / int64(h.SampleRate)" "origFormat.ClockRate()" "time.Second" QAccum;
+  mk_cs "internal/protocols/rtmp/from_stream.go FromStream" "timestampToDuration" "pts := u.PTS + int64(i)*ac3.SamplesPerFrame" "origFormat.ClockRate()" "time.Second" (QFrame "ac3.SamplesPerFrame");
   mk_cs "internal/protocols/rtmp/from_stream.go FromStream" "timestampToDuration" "u.PTS" "origFormat.ClockRate()" "time.Second" QVar;
   mk_cs "internal/protocols/rtmp/from_stream.go FromStream" "timestampToDuration" "u.PTS" "origFormat.ClockRate()" "time.Second" QVar;
   mk_cs "internal/protocols/rtmp/from_stream.go FromStream" "timestampToDuration" "u.PTS" "origFormat.ClockRate()" "time.Second" QVar;
